@@ -17,10 +17,10 @@ OPTS = {
     "C03": dict(BASE, n=(90, 2000), p_skip=0.03, p_fault=0.05, p_dry=0.05, p_force=0.06, max_builds=6, min_builds=3),
     "C04": dict(BASE, nprods=[1, 2, 2, 3, 0], p_fault=0.3, p_maxfail=0.4, p_skip=0.03, p_k=0.05, p_m=0.03, p_dry=0.04, max_tasks=8, p_after=0.3,
                 after_needs_products=False),
-    "C06": dict(BASE, p_skip=0.15, p_skipif=0.2, p_k=0.45, p_m=0.35, p_mark=0.5, p_after=0.35, after_needs_products=False,
+    "C06": dict(BASE, p_shared_after=0.15, p_skip=0.15, p_skipif=0.2, p_k=0.45, p_m=0.35, p_mark=0.5, p_after=0.35, after_needs_products=False,
                 p_force=0.15, p_dry=0.15),
-    "C08": dict(BASE, nprods=[1, 2, 2, 3, 3], p_fault=0.3, p_maxfail=0.2, illformed=0.12, p_after=0.3),
-    "C09": dict(BASE, illformed=0.55, p_after=0.4, max_builds=3, p_fault=0.03),
+    "C08": dict(BASE, p_shared_after=0.15, nprods=[1, 2, 2, 3, 3], p_fault=0.3, p_maxfail=0.2, illformed=0.12, p_after=0.3),
+    "C09": dict(BASE, illformed=0.55, p_after=0.5, p_shared_after=0.35, max_builds=3, p_fault=0.03),
     "C10": dict(BASE, p_dry=0.45, p_persist=0.2, p_force=0.12, p_k=0.12, p_skip=0.06, p_fault=0.08),
     "C17": dict(BASE, p_persist=0.45, p_force=0.15, p_skip=0.06, p_k=0.1, p_fault=0.1, max_builds=6, min_builds=3),
 }
